@@ -62,7 +62,18 @@ func generalizeErr(err error) error {
 		}
 	}
 
-	// if it is not a well known error, return it
+	// if it is not a well known error, return it without the endpoint addresses that a
+	// net.OpError embeds in its text (one of them is the client).
+	return stripAddrs(err)
+}
+
+// stripAddrs removes the source and remote addresses from any net.OpError in the chain of err. Text
+// added by wrapping errors is dropped as well, because it was formatted with the addresses included.
+func stripAddrs(err error) error {
+	var opErr *net.OpError
+	if errors.As(err, &opErr) {
+		return &net.OpError{Op: opErr.Op, Net: opErr.Net, Err: stripAddrs(opErr.Err)}
+	}
 	return err
 }
 
